@@ -38,11 +38,11 @@ from common import cstr, clist, cbool, copt, cpair, cz, cn
 
 THEOREMS = [
     'C09_normalize_float_normal_form', 'C09_normalize_float_classes',
-    'C09_normalize_float_exponent_padding_refuted', 'C09_normal_form_fixed',
+    'C09_normalize_float_kept_distinct', 'C09_normal_form_fixed',
     'C09_normalize_float_value',
     'C09_normalize_float_idempotent', 'C09_parse_material_density_fixed',
     'C09_parse_material_classes', 'C09_like_but_rho',
-    'C09_like_but_void_refuted', 'C09_pot_fill_provenance',
+    'C09_like_but_void', 'C09_pot_fill_provenance',
     'C09_provenance_head_is_leaf', 'C09_treat_fill_total',
     'C09_lattice_elements', 'C09_lattice_leaf_material', 'C09_geomcomp_name',
     'C09_geomcomp_one_line', 'C09_geomcomp_lines',
@@ -53,7 +53,7 @@ TRUSTED = [
     'hand-written model coq/C09/Model.v (tied by execution only); pot_fill '
     'and develop_lattice are modelled without geometry and transformations '
     '(cell_transform only allocates further keys)',
-    'Python re semantics of the three patterns of normalize_float: modelled as '
+    'Python re semantics of the four patterns of normalize_float: modelled as '
     'explicit string functions, tied exhaustively on the small alphabet',
     'float(): the model only decides WHETHER float() accepts a spelling '
     '(float_ok), tied on the same exhaustive domain; values are compared by '
@@ -75,9 +75,9 @@ ASSUMPTIONS = [
     'fillid of the cells handed to pot_fill is a plain universe number '
     '(lattices are developed before); importances are integers',
     'C09_normalize_float_classes: the number has at least one mantissa digit '
-    'and, when an exponent follows, both spellings carry the same padding '
-    '(the code never removes zeros between a fraction and an exponent: '
-    'C09_normalize_float_exponent_padding_refuted)',
+    '(otherwise the token is not a number); no guard on the padding any '
+    'more (repaired in /repo bd76c8d); spelling differences outside the '
+    'relation stay distinct (C09_normalize_float_kept_distinct)',
     'C09_provenance_head_is_leaf / C09_pot_fill_provenance: the parsed cells '
     'carry no provenance (idorigin empty) and new_cell_key is not below any '
     'existing key (true of construct_volume_t4: free_key = max key + 1); the '
@@ -345,9 +345,7 @@ def sweep_spellings(res, tier, rng):
         for (ta, pa, _), (tb, pb, _) in itertools.combinations(spl, 2):
             if outs[ta] == outs[tb]:
                 continue
-            cls = c09_oracle.classify_split([ta, tb])
-            if c09_gen.in_guard(number, pa, pb):
-                cls = None       # inside the guard nothing may differ
+            cls = None           # nothing may differ any more
             res.violation('impl-violation',
                           f'spellings {ta!r} and {tb!r} of one number '
                           f'normalise to {outs[ta][1][0]!r} and '
@@ -898,7 +896,7 @@ def witnesses(res):
                       'densities -1.5e-3 and -1.50e-3 of material 1 give '
                       f'compositions {names}',
                       {'input': {'deck': text}, 'observed': names},
-                      cls='trailing_zeros_before_exponent', found_input=True)
+                      found_input=True)       # repaired in /repo (bd76c8d)
     # 4.0e0 -> '4.0e'
     text = witness_deck([('1', '4.0e0')])
     conv = impl.convert(text)
@@ -930,7 +928,7 @@ def witnesses(res):
                       f'-1.0): the void copy is attached to {owner} '
                       f'(GEOMCOMP {lines})',
                       {'input': {'deck': text}, 'observed': lines},
-                      cls='like_but_mat_void', found_input=True)
+                      found_input=True)       # repaired in /repo (ac9102a)
     # DESIGN §8 #16
     text = witness_deck([('01', '-1.0')])
     conv = impl.convert(text)
@@ -945,6 +943,19 @@ def witnesses(res):
                          f'({sorted(comp)})' if conv.ok else str(conv)),
                       {'input': {'deck': text}},
                       found_input=True)       # repaired in /repo (d8902ad)
+
+
+def name_value(name):
+    '''(material number, density value) of a composition name; names are
+    compared numerically so that a change of the normal form of a density is
+    not a failure as long as one density keeps one name.'''
+    tok = c09_oracle.parse_name(name)
+    if tok is None:
+        return name
+    try:
+        return (int(tok[0]), None if tok[1] is None else float(tok[1]))
+    except ValueError:
+        return name
 
 
 def corpus(res):
@@ -973,7 +984,8 @@ def corpus(res):
         for point, want in probes:
             owners = ev.owners(point)
             got = [comp_of.get(v) for v in owners]
-            if got != [[want]]:
+            if [[name_value(x) for x in (g or [])] for g in got] \
+                    != [[name_value(want)]]:
                 good = False
                 res.violation('impl-violation',
                               f'corpus deck {name}: point {point} lies in '
@@ -982,7 +994,8 @@ def corpus(res):
                                                     'point': list(point)}},
                               found_input=True)
         have = {c['name'] for c in t4.compositions} - {'m0'}
-        if have != comps:
+        if len(have) != len(comps) or {name_value(x) for x in have} \
+                != {name_value(x) for x in comps}:
             good = False
             res.violation('impl-violation',
                           f'corpus deck {name}: compositions {sorted(have)}, '
@@ -1031,7 +1044,7 @@ def sweep_decks(res, tier, rng):
         for key, val in stats.items():
             totals[key] = totals.get(key, 0) + val
         for f in failures:
-            cls = f['cls'] if wild else None
+            cls = None
             res.violation('impl-violation', f'{f["kind"]}: {f["why"]}',
                           {'input': {'deck': text, 'args': args,
                                      'point': f.get('point')},
